@@ -192,7 +192,11 @@ impl Qcow2Info {
 
     #[inline]
     pub(crate) fn __max_l1_size(max_l1_entries: usize, bs: usize) -> usize {
-        (max_l1_entries * size_of::<u64>()).align_up(bs).unwrap()
+        // an image with virtual size 0 has no L1 entry, but the table buffer
+        // can't be empty
+        (std::cmp::max(max_l1_entries, 1) * size_of::<u64>())
+            .align_up(bs)
+            .unwrap()
     }
 
     pub(crate) fn __max_refcount_table_size(
